@@ -426,8 +426,9 @@ class Labels(JSONField):
             assert v is not None  # could be strings or lists of strings
             assert isinstance(v, str) or isinstance(v, list)
             try:
-                # will toss an exception if field is not defined
-                self.__getattribute__(k)
+                # will toss an exception if field is not defined (a method or a class attribute is not a field)
+                if k not in self.__dict__:
+                    raise AttributeError(k)
                 if self.VALIDATORS.get(k, None) is not None:
                     if isinstance(v, list):
                         for i in v:
